@@ -1,5 +1,29 @@
 package main
 
+import (
+	"os"
+	"path/filepath"
+)
+
+// tableWriters regenerate coq/Gen/*.v from the running implementation; each
+// returns file name -> contents.  Registered from init() of the file that owns
+// the table.
+var tableWriters []func() (map[string]string, error)
+
 func writeTables(dir string) error {
+	if err := os.MkdirAll(dir, 0o755); err != nil {
+		return err
+	}
+	for _, w := range tableWriters {
+		files, err := w()
+		if err != nil {
+			return err
+		}
+		for name, body := range files {
+			if err := os.WriteFile(filepath.Join(dir, name), []byte(body), 0o644); err != nil {
+				return err
+			}
+		}
+	}
 	return nil
 }
